@@ -301,6 +301,9 @@ type request struct {
 }
 
 func runCase(rq *request) M {
+	if rq.Mode == "date" {
+		return runDateCase(rq)
+	}
 	if rq.Mode == "compile" || rq.Mode == "denote" {
 		return runCompileCase(rq)
 	}
